@@ -126,7 +126,9 @@ class C07(core.Check):
     RULE = ('print cases: values built from byte patterns in a real Session (s._impl.values), values.to_repr in '
             'the four (leading_space, type_sign) combinations = PRINT/STR$, WRITE, LIST forms, values.str_, '
             'Float.to_decimal; end-to-end cases run PRINT/WRITE/STR$/VAL statements in a Session; step cases: '
-            'Float._div10_den/_mul10_den/_apply_carry_den on denormalised triples with the proved step bounds as oracle. parse cases: '
+            'Float._div10_den/_mul10_den/_apply_carry_den on denormalised triples with the proved step bounds as oracle; '
+            'LIST cases: tokenised lines with every number-token form (11h..1Bh, 0F nn, 1C, 1D, 1F, 0B, 0C, 0D, 0E) fed '
+            'to Lister.detokenise_line as token streams. parse cases: '
             'numbers.str_to_decimal (both allow_nonnum modes) and Values.from_repr result BYTES (hard and soft '
             'error handler). Pools: random single/double bytes, integers at 10^k and 2^k boundaries up to 2^24 / '
             '10^16, values whose scaled mantissa is next to 10^digits (carry class of D07a), exponent extremes; '
@@ -176,6 +178,14 @@ class C07(core.Check):
             for m in (256 * hb, 320 * hb - 1, 320 * hb, 320 * hb + 1, 512 * hb - 1, 512 * hb - 128, 409 * hb + 3):
                 for op, e in ((0, 152), (0, 1), (0, -7), (1, 0), (1, 200), (2, 150)):
                     c.append({'k': 'st', 't': t, 'op': op, 'e': e, 'm': m, 'n': 0})
+        # LIST of every constant token form, fed as token streams (1Bh = 10 is never written by the tokeniser: seed C07f)
+        for lead in range(0x11, 0x1c):
+            c.append({'k': 'lt', 'tok': [lead]})
+        for tok in ([0x0f, 0], [0x0f, 10], [0x0f, 255], [0x1c, 0, 0], [0x1c, 255, 127], [0x1c, 0, 128], [0x1c, 255, 255],
+                    [0x0e, 10, 0], [0x0e, 255, 255], [0x0d, 1, 0], [0x0b, 15, 0], [0x0c, 255, 255], [0x0b, 0, 0],
+                    [0x1d, 0, 0, 0, 129], [0x1d, 0, 0, 32, 132], [0x1d, 1, 2, 3, 0], [0x1f] + [0] * 6 + [32, 132],
+                    [0x1f, 255, 255, 3, 191, 201, 27, 14, 182]):
+            c.append({'k': 'lt', 'tok': tok})
         c.append({'k': 'i', 't': 4, 'lo': 0})
         c.append({'k': 'i', 't': 8, 'lo': 9999990})
         c.append({'k': 'i', 't': 4, 'lo': 9999990})
@@ -204,6 +214,8 @@ class C07(core.Check):
             elif r < 0.50:
                 t = rng.choice([4, 8])
                 add({'k': 'i', 't': t, 'lo': self.rand_int_block(rng, t)}, 'i:%d' % t)
+            elif r < 0.515:
+                add({'k': 'lt', 'tok': self.rand_list_token(rng)}, 'lt')
             elif r < 0.55:
                 c = self.rand_step(rng)
                 add(c, 'st:%d:%s' % (c['t'], ('div', 'mul', 'carry')[c['op']]))
@@ -407,6 +419,8 @@ class C07(core.Check):
                     return M.run(lambda: values.val_([M.make_value(3, case['w'])]))
             if k == 'st':
                 return self.impl_step(case)
+            if k == 'lt':
+                return self.impl_list_token(case)
             if k == 'i':
                 out = []
                 for n in range(case['lo'], case['lo'] + SWEEP):
@@ -414,6 +428,88 @@ class C07(core.Check):
                     out += self.impl_roundtrip(cls().from_int(n))
                 return out
         raise ValueError(k)
+
+    LT_PREFIX = b'10 PRINT '
+
+    def impl_list_token(self, case):
+        """LIST of a tokenised line `10 PRINT <number token>` fed to the Lister directly (token streams that
+        PC-BASIC's own tokeniser need not produce, e.g. the one-byte constant 1Bh = 10)"""
+        from pcbasic.basic.base.codestream import TokenisedStream
+        lister = M.session()._impl.lister
+        ins = TokenisedStream()
+        ins.write(b'\x01\x01\x0a\x00\x91 ' + bytes(case['tok']) + b'\0')
+        ins.seek(0)
+        return self.enc_str(lambda: bytes(lister.detokenise_line(ins)[1]))
+
+    @staticmethod
+    def token_reading(tok):
+        """independent reading of a number token: ('int', text) | ('float', t, bytes) | None"""
+        lead, trail = tok[0], tok[1:]
+        if 0x11 <= lead <= 0x1b and not trail:
+            return 'int', b'%d' % (lead - 0x11)
+        if lead == 0x0f and len(trail) == 1:
+            return 'int', b'%d' % trail[0]
+        if lead == 0x1c and len(trail) == 2:
+            return 'int', b'%d' % M.int_value(trail)
+        if lead in (0x0d, 0x0e) and len(trail) == 2:
+            return 'int', b'%d' % (trail[0] + 256 * trail[1])
+        if lead == 0x0b and len(trail) == 2:
+            return 'int', b'&O%o' % (trail[0] + 256 * trail[1])
+        if lead == 0x0c and len(trail) == 2:
+            return 'int', b'&H%X' % (trail[0] + 256 * trail[1])
+        if lead == 0x1d and len(trail) == 4:
+            return 'float', 4, trail
+        if lead == 0x1f and len(trail) == 8:
+            return 'float', 8, trail
+        return None
+
+    def oracle_list_token(self, case, out):
+        tok = case['tok']
+        if out[:1] != [0]:
+            return 'LIST of number token %r raised %r' % (bytes(tok), out)
+        text = bytes(out[2:])
+        rd = self.token_reading(tok)
+        if rd is None:
+            return None
+        if not text.startswith(self.LT_PREFIX):
+            return 'LIST of `10 PRINT <token %r>` gave %r' % (bytes(tok), text)
+        num = text[len(self.LT_PREFIX):]
+        if rd[0] == 'int':
+            return None if num == rd[1] else ('LIST shows the constant token %s as %r, its value is %s'
+                                              % (bytes(tok).hex(), num, rd[1].decode()))
+        why = self.check_printed(rd[1], M.float_value(rd[2]), list(num), False, True)
+        return ('LIST of token %s: ' % bytes(tok).hex() + why) if why else None
+
+    def rand_list_token(self, rng):
+        k = rng.random()
+        if k < 0.30:
+            return [rng.randrange(0x11, 0x1c)]
+        if k < 0.40:
+            return [0x0f, rng.choice([0, 9, 10, 11, 99, 100, 255, rng.randrange(256)])]
+        if k < 0.55:
+            return [rng.choice([0x1c, 0x0e, 0x0d, 0x0b, 0x0c])] + M.int_bytes(rng.choice(M.INT_POOL + [rng.randrange(-32768, 32768)]))
+        t = rng.choice([4, 8])
+        return [0x1d if t == 4 else 0x1f] + self.rand_float(rng, t)[1]
+
+    def model_list_token(self, case):
+        tok = case['tok']
+        lead, trail = tok[0], tok[1:]
+        pfx = core.zl(list(self.LT_PREFIX))
+        if 0x11 <= lead <= 0x1b:
+            body = '(Ok (dec_str (%d - 17)))' % lead
+        elif lead == 0x0f:
+            body = '(Ok (dec_str %d))' % trail[0]
+        elif lead == 0x1c:
+            body = '(v_to_repr (VInt %s) false true)' % core.zl(trail)
+        elif lead in (0x0d, 0x0e):
+            body = '(Ok (dec_str (i_uval %s)))' % core.zl(trail)
+        elif lead == 0x0b:
+            body = '(Ok ([38; 79] ++ i_to_oct %s))' % core.zl(trail)
+        elif lead == 0x0c:
+            body = '(Ok ([38; 72] ++ i_to_hex %s))' % core.zl(trail)
+        else:
+            body = '(v_to_repr (%s %s) false true)' % ('VSng' if lead == 0x1d else 'VDbl', core.zl(trail))
+        return '(enc_str (rmap (fun s => %s ++ s) %s))' % (pfx, body)
 
     def impl_step(self, case):
         """one scaling step of the real Float class on a denormalised triple (exp, man, neg)"""
@@ -468,6 +564,8 @@ class C07(core.Check):
             return '(enc_vres (from_repr true %s true))' % core.zl(case['w'])
         if k == 'i':
             return '(c07_int_sweep %s (%d) %d)' % (coq_fmt(case['t']), case['lo'], SWEEP)
+        if k == 'lt':
+            return self.model_list_token(case)
         if k == 'st':
             return '(c07_step %s %d (%d) %d %s)' % (coq_fmt(case['t']), case['op'], case['e'], case['m'],
                                                      'true' if case['n'] else 'false')
@@ -480,7 +578,7 @@ class C07(core.Check):
             return case['b'][-1] != 0
         if k in ('p', 'r'):
             return out[:1] == [0] and (case['t'] == 2 or case['b'][-1] != 0)
-        if k in ('i', 'st'):
+        if k in ('i', 'st', 'lt'):
             return True
         return out[:1] == [0] and any(48 < c <= 57 for c in case['w'])
 
@@ -637,6 +735,8 @@ class C07(core.Check):
             return self.oracle_e2e(case, out)
         if k == 'st':
             return self.oracle_step(case, out)
+        if k == 'lt':
+            return self.oracle_list_token(case, out)
         return 'unknown case kind'
 
     @staticmethod
